@@ -10,7 +10,7 @@ import io
 import numpy as np
 
 from verifkit import losscase as LC
-from verifkit.common import canon_hash, short_exc, tb_tail
+from verifkit.common import bystander, canon_hash, short_exc, tb_tail
 from verifkit.ref import loss as RL
 
 ID = "C06"
@@ -221,6 +221,13 @@ def run_case(rng, idx, tier, lane, ctx):
                     bad("a second loss object built from the same data changed its cost after calls on the first one", got=sv, expected=exp0)
             except Exception as e:
                 bad("cost of the sibling loss object raised", error=short_exc(e), tb=tb_tail(e))
+    free_b = np.array(LC.free_theta(c, c.theta), dtype=float)
+
+    def _again(obj=obj, free_b=free_b):
+        return [obj.cost(free_b.copy()), obj.residual(free_b.copy())]
+    w_ = bystander(ctx, _again, counters, what="a loss object built and evaluated earlier returns another cost after a different loss object was built and used")
+    if w_:
+        bad(w_.pop("what"), **w_)
     from verifkit.ref import integrate as RI
     distinct_cols = p == 1 or all(np.max(np.abs(c.y[:, i] - c.y[:, j])) > 1e-9 for i in range(p) for j in range(i))
     nontriv = bool(n >= 4 and distinct_cols and RI.moves(c.x0, rs.x, tol_x))
